@@ -140,6 +140,61 @@ class Machine:
                                 'cmd) not found' % self.dispatch.qualname)
         return prefix, None
 
+    LOSSY_METHODS = ('lower', 'upper', 'casefold', 'title', 'capitalize',
+                     'swapcase', 'replace', 'translate', 'strip', 'lstrip',
+                     'rstrip', 'expandtabs')
+    LOSSY_ERRORS = ('ignore', 'replace', 'xmlcharrefreplace', 'namereplace')
+
+    def lossy_dispatch_key(self):
+        """The dispatch name must be an INJECTIVE image of the command word
+        the peer sent: a decoding that drops or replaces bytes, or a case /
+        whitespace normalisation, makes a line that is not a protocol command
+        run the handler of one.  -> list of (line, text)."""
+        fn = self.dispatch.node
+        key = None
+        for n in ast.walk(fn):
+            if isinstance(n, ast.Call) and isinstance(n.func, ast.Name) and \
+                    n.func.id == 'getattr' and len(n.args) >= 2:
+                key = n.args[1]
+        if key is None:
+            return []
+        defs = {}
+        for n in ast.walk(fn):
+            if isinstance(n, ast.Assign):
+                for t in n.targets:
+                    for x in ast.walk(t):
+                        if isinstance(x, ast.Name):
+                            defs.setdefault(x.id, []).append(n.value)
+        seen, work, exprs = set(), [key], []
+        while work:
+            e = work.pop()
+            exprs.append(e)
+            for x in ast.walk(e):
+                if isinstance(x, ast.Name) and x.id not in seen:
+                    seen.add(x.id)
+                    work.extend(defs.get(x.id, ()))
+        out = []
+        for e in exprs:
+            for c in ast.walk(e):
+                if not (isinstance(c, ast.Call) and
+                        isinstance(c.func, ast.Attribute)):
+                    continue
+                if c.func.attr == 'decode' or (
+                        isinstance(c.func, ast.Name) and
+                        c.func.id == 'str'):
+                    errs = [a.value for a in c.args[1:2]
+                            if isinstance(a, ast.Constant)] + [
+                        k.value.value for k in c.keywords
+                        if k.arg == 'errors' and
+                        isinstance(k.value, ast.Constant)]
+                    if any(x in self.LOSSY_ERRORS for x in errs):
+                        out.append((c.lineno, 'decoded with errors=%r'
+                                    % errs[0]))
+                elif c.func.attr in self.LOSSY_METHODS:
+                    out.append((c.lineno, 'normalised with .%s()'
+                                % c.func.attr))
+        return out
+
     # ------------------------------------------------------------------
     def heap_from(self, astate):
         heap = {}
